@@ -511,7 +511,7 @@ theorem C14_decl_lexed (d : Declaration) (ts : List Token) (h : LexOK false ts =
     (henc : ∀ e, d.encoding = some e → Prolog.isEncName e = true) :
     ∃ v e sa sp ts', lexDocument (d.bytes ++ renderTokens ts) =
         (.declaration ⟨['1', '.', '0'], v⟩ e sa sp :: ts', none) ∧
-      ts'.map Token.erase = ts.map Token.erase :=
+      ts'.map Token.erase = ts.map Token.erase ∧ tokensPrefixOk ts' = true :=
   lexDocument_declaration_erase d ts h (fun e he => isEncName_encChar (henc e he))
 
 /-- Declaration + `parse_fragment` (a fragment start node serialised with a declaration): rejected by the
